@@ -1395,3 +1395,4 @@ Proof.
   - exists ti. split; [exact El|]. intro Hc. rewrite Hc in Ed. discriminate.
   - simpl. eexists. split; [apply lookup_update_eq|reflexivity].
 Qed.
+
